@@ -18,6 +18,7 @@
 #include "dbgroup/random/zipf.hpp"
 
 // C++ standard libraries
+#include <algorithm>
 #include <cmath>
 #include <cstddef>
 #include <cstdint>
@@ -70,7 +71,8 @@ ZipfDistribution<IntType>::UpdateCDF()
   zipf_cdf_.reserve(bin_num);
   zipf_cdf_.emplace_back(base_prob);
   for (IntType i = 1; i < bin_num; ++i) {
-    const auto ith_prob = zipf_cdf_.at(i - 1) + base_prob / pow(i + 1, alpha_);
+    // rounding must not push a cumulative value above the final one
+    const auto ith_prob = std::min(1.0, zipf_cdf_.at(i - 1) + base_prob / pow(i + 1, alpha_));
     zipf_cdf_.emplace_back(ith_prob);
   }
   zipf_cdf_.at(bin_num - 1) = 1.0;
@@ -124,7 +126,8 @@ ApproxZipfDistribution<IntType>::UpdateCDF()
     // create an exact CDF according to Zipf's law
     zipf_cdf_.at(0) = base_prob;
     for (IntType i = 1; i < static_cast<IntType>(kExactBinNum); ++i) {
-      const auto ith_prob = zipf_cdf_.at(i - 1) + base_prob / pow(i + 1, alpha_);
+      // rounding must not push a cumulative value above the final one
+      const auto ith_prob = std::min(1.0, zipf_cdf_.at(i - 1) + base_prob / pow(i + 1, alpha_));
       zipf_cdf_.at(i) = ith_prob;
     }
     zipf_cdf_.at(n_ - 1) = 1.0;
